@@ -20,6 +20,7 @@ class MarginalImputer(BaseImputer):
         return sampled_features
 
     def impute(self, feature_subset, x_i, n_samples=1):
+        feature_subset = list(feature_subset)
         predictions = []
         for _ in range(n_samples):
             sampled_values = self._sample(self.storage_object, feature_subset)
